@@ -159,8 +159,15 @@ def block_ok(v):
     """Can the string be written as a literal block scalar (|-) without any indentation / chomping subtleties?"""
     if not isinstance(v, str) or not v:
         return False
-    lines = v.split('\n')
+    lines = v.rstrip('\n').split('\n')       # trailing line breaks are expressed by the chomping indicator (see block_lines)
     return all(ln and ln == ln.strip() and all(0x20 <= ord(c) < 0x7f or ord(c) > 0xa0 for c in ln) for ln in lines) and not v.startswith('#')
+
+
+def block_lines(v):
+    """-> (header, lines) of a literal block scalar holding v: '|-' strip, '|' clip (one final line break), '|+' keep (several)."""
+    body = v.rstrip('\n')
+    k = len(v) - len(body)
+    return ('|-' if k == 0 else '|' if k == 1 else '|+'), body.split('\n') + [''] * max(0, k - 1)
 
 
 def _candidates(v, q):
@@ -311,7 +318,8 @@ class Renderer:
             return ' ' + (tg + ' ' if tg else '') + '|-\n' + '\n'.join(pad + ln if ln else '' for ln in lines)
         if n['t'] == 'sc' and n.get('q') == 'block' and block_ok(n['v']):
             pad = ' ' * (indent + 2)
-            return ' ' + (tg + ' ' if tg else '') + '|-\n' + '\n'.join(pad + ln for ln in n['v'].split('\n'))
+            head, lines = block_lines(n['v'])
+            return ' ' + (tg + ' ' if tg else '') + head + '\n' + '\n'.join(pad + ln if ln else '' for ln in lines)
         if self.is_inline(n):
             body = self.inline(n)
             s = ' '.join(x for x in (tg, body) if x)
